@@ -156,7 +156,10 @@ def gen_case(rng):
         elif r < 0.8:
             bound[o] = alt[o]
             call[o] = values[o]
+    # parameter names of the hinted function, in declaration order (any identifiers, any order)
+    hint_names = rng.sample(["temp", "salt", "w", "v", "u", "hi", "lo", "b", "a", "_x", "Zeta"], len(in_sig))
     case = {"ctor": ctor, "sig": sig, "axis": axis, "args": args, "mode": mode, "bound": bound, "call": call,
+            "hint_names": hint_names,
             "axis_str": rng.random() < 0.3,
             "in_sig": in_sig, "out_sig": out_sig}
     # the plan that undoes the padding
@@ -307,7 +310,7 @@ def run_impl(case):
             if mode == "hints":
                 def ann(a):
                     return Annotated[np.ndarray, ",".join(f"{d}:{p}" for d, p in a)]
-                names = ["a", "b", "c"][:len(case["in_sig"])]
+                names = case.get("hint_names") or ["a", "b", "c"][:len(case["in_sig"])]
                 hints = {n: ann(a) for n, a in zip(names, case["in_sig"])}
                 outs = [ann(a) for a in case["out_sig"]]
                 hints["return"] = outs[0] if len(outs) == 1 else Tuple[tuple(outs)]
